@@ -110,3 +110,9 @@ def run(ctx):
 
     r = ctx.rule("R2q", "x86_64 single-point min / max / and / or / compare: on every order type of the operands exactly one path is selected and leaves the interpreter's value (path summaries; output aliased, shared and immediate operands)", 5)
     ctx.guarded(r, PW86.check_piecewise, "point", choices=False)
+    from .. import hashsem as HS
+
+    r = ctx.rule("R2r", "rand / mix: every native single-point and float-slice implementation (x86_64 and aarch64) computes, as a term over its input bit patterns, the hash of fidget_core::rng", 8)
+    for arch in ("x86_64", "aarch64"):
+        for kind in ("point", "float_slice"):
+            ctx.guarded(r, HS.check_hash_terms, arch, kind)
